@@ -441,6 +441,9 @@ func replayBatch(par int, jobs []string) string {
 		if o.Req != "" && len(jobs) == 1 {
 			v = append(v, "history: "+o.Req)
 		}
+		if o.Note != "" {
+			v = append(v, fmt.Sprintf("note: %s results %v", o.Note, o.Kinds))
+		}
 	}
 	return fmt.Sprintf("child crash=%q jobs-reported=%d/%d %v", r.Crash, len(r.Outs), len(jobs), v)
 }
